@@ -197,6 +197,7 @@ type c31SkResult struct {
 	afterCalls     int // atoms started after the cancellation (must be 0)
 	timedOut       bool
 	neverCancelled bool // the k-th atom was never reached within the watchdog time (no atom in a long loop)
+	elapsed        time.Duration
 	panicked       string
 }
 
@@ -253,8 +254,10 @@ func c31RunSk(src string, k int, bits string, hist string, limit time.Duration) 
 		}
 		done <- rerr
 	}()
+	t0 := time.Now()
 	select {
 	case rerr := <-done:
+		res.elapsed = time.Since(t0)
 		if rerr != nil && strings.HasPrefix(rerr.Error(), "panic: ") {
 			res.panicked = rerr.Error()
 		}
@@ -313,7 +316,7 @@ func c31SkCase(c *Ctx, r *Rand) {
 		c.Case(witness, true, "leg=sk", "sk-timeout")
 		return
 	}
-	if res.neverCancelled || (len(res.log) < k && strings.Contains(src, "<1000000;")) {
+	if res.neverCancelled || (len(res.log) < k && res.elapsed > 300*time.Millisecond && strings.Contains(src, "<1000000;")) {
 		// a `for ((;;))`-like loop whose body never reaches an atom: the k-th atom, hence the
 		// cancellation, never happens; the real loop runs its million iterations (or hits the
 		// watchdog), the model would need that much fuel — nothing to compare
